@@ -22,6 +22,36 @@ func runC13(c *Ctx) {
 	c01ValueEffects(c)
 	c13KeepFlag(c)
 	checkPopOne(c, "pop-structure", routePop)
+	c13StripOnce(c)
+}
+
+// c13StripOnce: the routing decision strips the next-hop entry (when keepNextHopRoute is off), so it may be taken only
+// once per handled request: HandleMessage reaches getNextRequestHop at most once on every path and not in a loop, and
+// nobody else calls it (nor its Route half) - a retry that "routes again" strips a second entry.
+func c13StripOnce(c *Ctx) {
+	w := c.w
+	rule := "keep-flag"
+	hm := c.fn(rule, "(*Proxy).HandleMessage")
+	if hm == nil {
+		return
+	}
+	sites := w.callsIn(hm, hopReqFn)
+	_, mx, inf := countSites(entryPt(hm), nil, inSet(siteInstrs(sites)))
+	c.check(len(sites) >= 1 && mx <= 1 && !inf, rule, "HandleMessage/hop-decision-once", w.pos(hm.Pos()), "one routing decision per handled request", fmt.Sprintf("a handled request can take the routing decision %d times (in a loop: %v; %d call sites): each decision strips the next-hop Route entry again, so a retry leaves the request without the entry behind its next hop and sends it past that hop", mx, inf, len(sites)))
+	for _, callee := range []string{hopReqFn, "(*Proxy).getNextRequestHopByRoute"} {
+		want := map[string]bool{"(*Proxy).HandleMessage": true}
+		if callee != hopReqFn {
+			want = map[string]bool{hopReqFn: true}
+		}
+		n := 0
+		for _, fn := range w.All {
+			for _, cs := range w.callsIn(fn, callee) {
+				n++
+				c.check(want[w.fname(fn)], rule, fmt.Sprintf("%s/caller:%s", callee, w.fname(fn)), w.ipos(cs.In), "called from the one place that decides the route", callee+" is called from "+w.fname(fn)+": a second routing decision on the same message strips a second Route entry")
+			}
+		}
+		c.check(n >= 1, rule, callee+"/called", "-", "the decision is taken", callee+" is never called")
+	}
 }
 
 func c13Consume(c *Ctx) {
